@@ -844,19 +844,23 @@ func runSpec(prop string) int {
 		n, samples := runTimedPops(rep)
 		cov["timed_blocking_pop_scenarios"] = n
 		cov["samples"] = append(cov["samples"].([]string), samples...)
-		// "each element goes to exactly one popper": the list and blocking-pop pairs of the
-		// interleaving explorer (engines/concmc, pairs.go) run as a second stage of this check
+	}
+	if prop == "C09" || prop == "C06" {
+		// C09, "each element goes to exactly one popper": the list and blocking-pop pairs; C06, "all
+		// instants at which a command probes the key relative to the deadline": the expired-key pairs
+		// (reaper timer as a third thread) - both from the interleaving explorer (engines/concmc,
+		// pairs.go), run as a second stage of this check
 		if bin := os.Getenv("VERIF_CONC_BIN"); bin != "" {
 			dir := os.Getenv("VERIF_SCRATCH")
 			if dir == "" {
 				dir = os.TempDir()
 			}
 			tmp := filepath.Join(dir, fmt.Sprintf("verif-sub-%d.json", os.Getpid()))
-			cmd := exec.Command(bin, "C09")
+			cmd := exec.Command(bin, prop)
 			cmd.Env = append(os.Environ(), "VERIF_SUBREPORT="+tmp)
 			cmd.Stderr = os.Stderr
 			if err := cmd.Run(); err != nil {
-				fmt.Fprintln(os.Stderr, "seqmc: the concurrent stage of C09 failed to run:", err)
+				fmt.Fprintln(os.Stderr, "seqmc: the concurrent stage of "+prop+" failed to run:", err)
 				return 2
 			}
 			sub, err := rep.Import(tmp)
